@@ -1,4 +1,5 @@
 import AnonCreds.Props.C01
+import AnonCreds.Model.Create
 import Mathlib.Data.List.Perm.Subperm
 import Mathlib.Data.List.Nodup
 /-
@@ -135,5 +136,65 @@ theorem substituted_value_rejected (enc : ClaimData → F) (ss : SigStmt) (inner
 example : checkDisclosed (F := Nat) (fun c => match c with | .number v => v.toNat | _ => 0)
     ⟨"s", ["age", "zip"], ["id", "age"], [.revocation, .number]⟩ [(1, 30)] [("age", .number 30)] = true := by
   decide
+
+/-! ### what the honest prover reports (model `Create.createDisclosed`, tie `cr.proofs`) -/
+
+open AC.Create
+
+/-- the message vector `create` builds for a signature statement marks exactly the requested labels as revealed -/
+theorem revealedIdx_spec (disclosed labels : List String) (n i : Nat) :
+    i ∈ revealedIdx ((labels.take n).map fun l => if disclosed.contains l then Msg.revealed else Msg.hidden)
+      ↔ ∃ l, (labels.take n)[i]? = some l ∧ l ∈ disclosed := by
+  simp only [revealedIdx, List.mem_filter, List.mem_range, List.length_map, List.getElem?_map]
+  constructor
+  · rintro ⟨hlt, h⟩
+    cases hl : (labels.take n)[i]? with
+    | none => simp [hl] at h
+    | some l =>
+      refine ⟨l, rfl, ?_⟩
+      simp only [hl, Option.map_some] at h
+      by_cases hd : disclosed.contains l = true
+      · simpa using hd
+      · simp at h; exact h
+  · rintro ⟨l, hl, hd⟩
+    have hlt : i < (labels.take n).length := by
+      rcases Nat.lt_or_ge i (labels.take n).length with h | h
+      · exact h
+      · rw [List.getElem?_eq_none h] at hl; cases hl
+    refine ⟨hlt, ?_⟩
+    simp [hl, hd]
+
+/-- **What the honest prover reports.** For a credential with `n` claims under a statement requesting
+`disclosed`, the labels `create` files under the statement's id (model `Create.createDisclosed`, compared with
+the real `disclosed_messages` by `cr.proofs`) are exactly the requested labels among the first `n` labels of
+the issuer schema — the left-hand side of the verifier's check `checkDisclosed_labels`. -/
+theorem create_reports_exactly_requested (disclosed labels : List String) (n : Nat) (l : String) :
+    l ∈ (revealedIdx ((labels.take n).map fun l => if disclosed.contains l then Msg.revealed else Msg.hidden)).filterMap
+          (labels[·]?)
+      ↔ l ∈ labels.take n ∧ l ∈ disclosed := by
+  rw [List.mem_filterMap]
+  constructor
+  · rintro ⟨i, hi, hl⟩
+    obtain ⟨l', hl', hd⟩ := (revealedIdx_spec disclosed labels n i).1 hi
+    have hlt : i < n := by
+      by_contra hge
+      rw [List.getElem?_take_eq_none (Nat.le_of_not_lt hge)] at hl'
+      cases hl'
+    rw [List.getElem?_take_of_lt hlt, hl] at hl'
+    cases hl'
+    exact ⟨List.mem_of_getElem? (by rw [List.getElem?_take_of_lt hlt]; exact hl), hd⟩
+  · rintro ⟨hm, hd⟩
+    obtain ⟨i, hi⟩ := List.mem_iff_getElem?.1 hm
+    refine ⟨i, (revealedIdx_spec disclosed labels n i).2 ⟨l, hi, hd⟩, ?_⟩
+    have hlt : i < n := by
+      by_contra hge
+      rw [List.getElem?_take_eq_none (Nat.le_of_not_lt hge)] at hi
+      cases hi
+    rw [List.getElem?_take_of_lt hlt] at hi
+    exact hi
+
+example : (revealedIdx ((["a", "b", "c"].take 3).map fun l => if ["c", "a", "z"].contains l then Msg.revealed else Msg.hidden)).filterMap
+    (["a", "b", "c"][·]?) = ["a", "c"] := by decide
+
 
 end AC.C02
